@@ -179,6 +179,21 @@ func (s *scen) tagMonitor(st *chainsim.Step, v func(key, what string)) {
 					}
 				}
 			}
+		case fn == "update_allocation_request" && strings.Contains(st.Action.Name, "extend"):
+			pre, post := s.view(st.Pre), s.view(st.Post)
+			id := targetAlloc(st.Txn)
+			if a, b := pre.allocs[id], post.allocs[id]; a != nil && b != nil {
+				switch {
+				case b.MovedBack > a.MovedBack && b.MovedToChallenge == a.MovedToChallenge:
+					st.Tag("extend:tokens-moved-out-of-challenge-pool")
+				case b.MovedToChallenge > a.MovedToChallenge && b.MovedBack == a.MovedBack:
+					st.Tag("extend:tokens-moved-into-challenge-pool")
+				case b.MovedToChallenge > a.MovedToChallenge && b.MovedBack > a.MovedBack:
+					st.Tag("extend:tokens-moved-both-ways")
+				default:
+					st.Tag("extend:no-challenge-pool-move")
+				}
+			}
 		case fn == "generate_challenge":
 			pre, post := s.view(st.Pre), s.view(st.Post)
 			a, b := int64(0), int64(0)
@@ -720,6 +735,9 @@ func (s *scen) freeMonitor(st *chainsim.Step, v func(key, what string)) {
 	if !good {
 		v("C24:grant-with-invalid-assigner-signature", "free allocation created although the marker is not signed by the registered assigner key")
 	}
+	if info := s.pathInfo(st.Pre.Path); info != nil && info.redeemed[fmt.Sprintf("%s:%d", mk.Assigner, mk.Nonce)] {
+		v("C24:marker-nonce-redeemed-twice", fmt.Sprintf("nonce %d of assigner %s was already accepted earlier on this path (owner wallet debited) and is accepted again", mk.Nonce, short(mk.Assigner)))
+	}
 	for _, n := range as.RedeemedNonces {
 		if n == mk.Nonce {
 			v("C24:marker-nonce-redeemed-twice", fmt.Sprintf("nonce %d of assigner %s redeemed again", mk.Nonce, short(mk.Assigner)))
@@ -763,6 +781,50 @@ func (s *scen) freeMonitor(st *chainsim.Step, v func(key, what string)) {
 	if created != 1 {
 		v("C24:grant-did-not-create-one-allocation", fmt.Sprintf("%d allocations created by one marker", created))
 	}
+}
+
+// freeStorageDebitOK is the free-storage clause of the C04 oracle (hook of lib/mon.DebitMonitor):
+// the debited account is the configured storage owner wallet, the transaction is a
+// free_allocation_request whose marker is validly signed by a registered assigner and names the
+// submitter as recipient, and the (assigner, nonce) pair was not accepted before on this path.
+func (s *scen) freeStorageDebitOK(w *world.World, st *chainsim.Step, id string) bool {
+	pre := s.view(st.Pre)
+	if pre.conf == nil || id != pre.conf.OwnerID || st.Txn.FunctionName != "free_allocation_request" {
+		return false
+	}
+	var mk struct {
+		Assigner   string   `json:"assigner"`
+		Recipient  string   `json:"recipient"`
+		FreeTokens float64  `json:"free_tokens"`
+		Nonce      int64    `json:"nonce"`
+		Signature  string   `json:"signature"`
+		Blobbers   []string `json:"blobbers"`
+	}
+	if json.Unmarshal([]byte(str(txnInput(st.Txn), "marker")), &mk) != nil || mk.Recipient != st.Txn.ClientID {
+		return false
+	}
+	as := pre.assigners[mk.Assigner]
+	if as == nil {
+		return false
+	}
+	text := fmt.Sprintf("%s:%f:%d:%s", mk.Recipient, mk.FreeTokens, mk.Nonce, strings.Join(mk.Blobbers, ""))
+	sch := encryption.NewBLS0ChainScheme()
+	if err := sch.SetPublicKey(as.PublicKey); err != nil {
+		return false
+	}
+	if good, err := sch.Verify(mk.Signature, hex.EncodeToString([]byte(text))); err != nil || !good {
+		return false
+	}
+	info := s.pathInfo(st.Pre.Path)
+	if info == nil {
+		panic("freeStorageDebitOK: untracked path " + strings.Join(st.Pre.Path, " "))
+	}
+	if info.redeemed[fmt.Sprintf("%s:%d", mk.Assigner, mk.Nonce)] {
+		st.Tag("free-storage-debit:replayed-marker")
+		return false
+	}
+	st.Tag("free-storage-debit:authorised")
+	return true
 }
 
 // ---------------------------------------------------------------------------------------------
